@@ -369,6 +369,9 @@ func (ci *concr) runB(fn *ssa.Function, args []cval, bindings []cval, depth int)
 			}
 			return cval{kind: cConst, c: c.Value}
 		}
+		if f, ok := v.(*ssa.Function); ok {
+			return cval{kind: cClosure, fn: f} // a function literal without captured variables, or a named function used as a value
+		}
 		if g, ok := v.(*ssa.Global); ok && ci.heap {
 			_, have := ci.globals[g]
 			if !have && !(ci.zeroGlobals && g.Pkg != nil && corePkg(g.Pkg.Pkg.Path())) {
